@@ -12,8 +12,11 @@ def un (f : Value → Res Value) (a : Sexp) : Option String := do
 def handleOps : Handler := fun op args =>
   match op, args with
   | "op.equals", [a, b] => bin Value.equals a b
+  | "op.notequal", [a, b] => bin Value.notEqual a b
   | "op.lt", [a, b] => bin Value.lessThan a b
   | "op.gt", [a, b] => bin Value.greaterThan a b
+  | "op.le", [a, b] => bin Value.lessThanOrEqualTo a b
+  | "op.ge", [a, b] => bin Value.greaterThanOrEqualTo a b
   | "op.and", [a, b] => bin Value.and a b
   | "op.or", [a, b] => bin Value.or a b
   | "op.not", [a] => un Value.not a
